@@ -1479,7 +1479,7 @@ B("C01-snapshot-reads-other-keyspace", "C01", "C01:R-C01.2", "src/tx/write_tx.rs
 
         Ok(res)""")
 E("EQ-first-via-iter", KS,
-  "self.tree.first_key_value(SeqNo::MAX, None).map(Guard)", "self.tree.iter(SeqNo::MAX, None).next().map(Guard)")
+  "self.tree.first_key_value(nonce.instant, None).map(Guard)", "self.tree.iter(nonce.instant, None).next().map(Guard)")
 
 # ======================================================================== C15
 ENTRY = "src/journal/entry.rs"
@@ -2453,3 +2453,101 @@ B("C03-raw-truncate-to-stream-pos", "C03", "C03:R-C03.3:journal::reader::Journal
             self.truncate_file(self.last_valid_pos)?;""",
   """        if stream_pos < self.last_valid_pos {
             self.truncate_file(self.last_valid_pos)?;""")
+
+# ======================================================================== R-C05.6 gc arithmetic
+B("C05-gc-drops-singly-open-instants", "C05", "C05:R-C05.6:snapshot_tracker::SnapshotTracker::gc::{closure#0}:open-registrations-are-retained", TRACKER,
+  "            let should_be_retained = *v > 0 || k >= seqno_threshold;",
+  "            let should_be_retained = *v > 1 || k >= seqno_threshold;")
+B("C05-gc-lowest-is-max", "C05", "C05:R-C05.6:snapshot_tracker::SnapshotTracker::gc::{closure#0}:lowest-retained-is-running-minimum", TRACKER,
+  "                    lo => lo.min(k),",
+  "                    lo => lo.max(k),")
+B("C05-gc-open-only-counted-when-recent", "C05", "C05:R-C05.6:snapshot_tracker::SnapshotTracker::gc::{closure#0}", TRACKER,
+  "            let should_be_retained = *v > 0 || k >= seqno_threshold;",
+  "            let should_be_retained = *v > 0 && k >= seqno_threshold;")
+B("C05-gc-candidate-only-for-recent", "C05", "C05:R-C05.6:snapshot_tracker::SnapshotTracker::gc::{closure#0}:every-retained-instant-lowers-the-candidate", TRACKER,
+  "            if should_be_retained {\n                lowest_retained = match",
+  "            if should_be_retained && k >= seqno_threshold {\n                lowest_retained = match")
+B("C05-gc-watermark-plus-one", "C05", "C05:R-C05.6:snapshot_tracker::SnapshotTracker::gc:watermark-from-lowest-retained", TRACKER,
+  "            lowest_retained.saturating_sub(1),",
+  "            lowest_retained.saturating_add(1),")
+E("EQ-gc-retain-if-else", TRACKER,
+  "            let should_be_retained = *v > 0 || k >= seqno_threshold;",
+  "            let should_be_retained = if *v != 0 { true } else { k >= seqno_threshold };", props=["C05", "C07"])
+
+SUP = "src/supervisor.rs"
+E("EQ-seqno-map-filter-map", SUP,
+  """        let mut seqnos = Vec::with_capacity(keyspaces.len());
+
+        for keyspace in keyspaces.values() {
+            if let Some(lsn) = keyspace.tree.get_highest_memtable_seqno() {
+                seqnos.push(crate::journal::manager::EvictionWatermark {
+                    lsn,
+                    keyspace: keyspace.clone(),
+                });
+            }
+        }
+
+        seqnos""",
+  """        keyspaces
+            .values()
+            .filter_map(|keyspace| {
+                keyspace.tree.get_highest_memtable_seqno().map(|lsn| {
+                    crate::journal::manager::EvictionWatermark {
+                        lsn,
+                        keyspace: keyspace.clone(),
+                    }
+                })
+            })
+            .collect()""", props=["C10", "C02", "C14"])
+B("S2-C10-seqno-map-skips-idle-keyspace", "C10", "C10:R-C10.3:supervisor::Supervisor::build_seqno_map:no-keyspace-skipped", SUP,
+  """        for keyspace in keyspaces.values() {
+            if let Some(lsn)""",
+  """        for keyspace in keyspaces.values() {
+            if keyspace.tree.active_memtable().is_empty() {
+                continue;
+            }
+
+            if let Some(lsn)""")
+
+OPTS = "src/keyspace/options.rs"
+B("C16-memtable-size-clamped-on-recovery", "C16", "C16:R-C16", OPTS,
+  """        let max_memtable_size = (&mut &max_memtable_size[..]).read_u64::<byteorder::LE>()?;""",
+  """        let max_memtable_size = (&mut &max_memtable_size[..]).read_u64::<byteorder::LE>()?.min(256 * 1_024 * 1_024);""")
+B("C16-separation-threshold-floor-on-recovery", "C16", "C16:R-C16", OPTS,
+  """            let separation_threshold = (&mut &separation_threshold[..]).read_u32::<LE>()?;""",
+  """            let separation_threshold = (&mut &separation_threshold[..]).read_u32::<LE>()?.max(512);""")
+B("C16-memtable-size-written-in-kib", "C16", "C16:R-C16", OPTS,
+  """                (key, self.max_memtable_size.to_le_bytes().into())""",
+  """                (key, (self.max_memtable_size / 1_024 * 1_024).to_le_bytes().into())""")
+B("S3-C16-hash-ratio-clamped-on-decode", "C16", "C16:R-C16.3:keyspace::config::hash_ratio", "src/keyspace/config/hash_ratio.rs",
+  """            v.push(bytes.read_f32::<LittleEndian>()?);""",
+  """            v.push(bytes.read_f32::<LittleEndian>()?.clamp(0.0, 1.0));""")
+B("C16-block-size-rounded-on-encode", "C16", "C16:R-C16.3:keyspace::config::block_size", "src/keyspace/config/block_size.rs",
+  """*item""", """(*item).next_power_of_two()""")
+
+# ======================================================================== R-C18.3: a repaired scratch copy must be silent (the rule is a known finding today)
+E2("REPAIRED-C18-replay-skips-persisted-records",
+   [(DB, """                        let tree = &keyspace.tree;
+
+                        match item.value_type {
+                            lsm_tree::ValueType::Value => {
+                                tree.insert(item.key, item.value, batch.seqno);""",
+     """                        let tree = &keyspace.tree;
+
+                        if tree.get_highest_persisted_seqno().is_some_and(|p| batch.seqno <= p) {
+                            continue;
+                        }
+
+                        match item.value_type {
+                            lsm_tree::ValueType::Value => {
+                                tree.insert(item.key, item.value, batch.seqno);"""),
+    (REC, """                match item.value_type {
+                    lsm_tree::ValueType::Value => {
+                        tree.insert(item.key, item.value, batch.seqno);""",
+     """                if tree.get_highest_persisted_seqno().is_some_and(|p| batch.seqno <= p) {
+                    continue;
+                }
+
+                match item.value_type {
+                    lsm_tree::ValueType::Value => {
+                        tree.insert(item.key, item.value, batch.seqno);""")], props=["C18"])
